@@ -47,26 +47,32 @@ fn check_vehicle_load_assignment(context: &CheckerContext) -> GenericResult<()> 
                             return Err(format!("load exceeds capacity in tour '{}'", tour.vehicle_id).into());
                         }
 
-                        let change = to.activities().iter().try_fold::<_, _, GenericResult<_>>(
-                            MultiDimLoad::default(),
-                            |acc, activity| {
-                                let activity_type = context.get_activity_type(tour, to, activity)?;
-                                let (demand_type, demand) =
-                                    if activity.activity_type == "arrival" || activity.activity_type == "reload" {
-                                        (DemandType::StaticDelivery, end_pickup)
-                                    } else {
-                                        get_demand(context, activity, &activity_type)?
-                                    };
+                        let get_stop_change = |stop: &Stop| {
+                            stop.activities().iter().try_fold::<_, _, GenericResult<_>>(
+                                MultiDimLoad::default(),
+                                |acc, activity| {
+                                    let activity_type = context.get_activity_type(tour, stop, activity)?;
+                                    let (demand_type, demand) =
+                                        if activity.activity_type == "arrival" || activity.activity_type == "reload" {
+                                            (DemandType::StaticDelivery, end_pickup)
+                                        } else {
+                                            get_demand(context, activity, &activity_type)?
+                                        };
 
-                                Ok(match demand_type {
-                                    DemandType::StaticDelivery | DemandType::DynamicDelivery => acc - demand,
-                                    DemandType::StaticPickup | DemandType::DynamicPickup => acc + demand,
-                                    DemandType::None | DemandType::StaticPickupDelivery => acc,
-                                })
-                            },
-                        )?;
+                                    Ok(match demand_type {
+                                        DemandType::StaticDelivery | DemandType::DynamicDelivery => acc - demand,
+                                        DemandType::StaticPickup | DemandType::DynamicPickup => acc + demand,
+                                        DemandType::None | DemandType::StaticPickupDelivery => acc,
+                                    })
+                                },
+                            )
+                        };
 
-                        let is_from_valid = from_load == acc;
+                        let change = get_stop_change(to)?;
+                        // NOTE: jobs served at the start location share the stop with departure
+                        let from_change = if *idx == 0 { get_stop_change(from)? } else { MultiDimLoad::default() };
+
+                        let is_from_valid = from_load == acc + from_change;
                         let is_to_valid = to_load == from_load + change;
 
                         if is_from_valid && is_to_valid {
